@@ -48,7 +48,7 @@ def _cut(x, mark=b"#"):
     return x[:x.index(mark)] if mark in x else x
 
 
-def history_oracle(fields, impl, model):
+def history_oracle(fields, impl, model=None):
     """C08: every step of the history must equal the first invocation of a freshly built copy
     of the same Action with the same Context (computed by the harness itself: the part after '#')."""
     if impl and impl[0] == b"panic":
@@ -196,7 +196,9 @@ PROPS = {
                      "reader process; exhaustive over that space"),
     "C08": dict(streams=[dict(harness="history", model="history", oracle=None, quick=4000, thorough=150000,
                              project=lambda f, x: _cut(x), oracle_cmp=history_oracle,
-                             nontrivial=lambda f, impl: impl.count(b";") >= 6)],
+                             nontrivial=lambda f, impl: impl.count(b";") >= 6),
+                         dict(harness="historyx", model=None, oracle=None, quick=400, thorough=20000,
+                              oracle_py=lambda f, impl: history_oracle(f, impl), nontrivial=lambda f, impl: impl.count(b";") >= 6)],
                 tie="Model/Action.v pure semantics (invoke . denote, history-independent) <-> real Actions built once and invoked repeatedly",
                 rule="cases = a pool of 3-6 Actions built ONCE (1-2 static Actions shared by reference, expressions over them and over earlier pool "
                      "entries: Prefix/Suffix/Style/Tag/Suppress/NoSpace/Usage/Filter/MultiParts/UniqueList/Batch/partition/ActionMessage with arguments/"
